@@ -242,6 +242,14 @@ var pathIndependence = ev.Register(&ev.P[pathCase]{
 		if g := gen.FromSolar(l.GetSolar()); g != t || ymdOf(l.GetSolar().GetLunar()) != ymdOf(l) || l.GetSolar().GetLunar().GetTimeInGanZhi() != l.GetTimeInGanZhi() {
 			return fmt.Errorf("%v: after stepping calls on its civil date the held lunar date reports civil %v / lunar %v (hour pillar %s vs %s)", t, g, ymdOf(l.GetSolar().GetLunar()), l.GetSolar().GetLunar().GetTimeInGanZhi(), l.GetTimeInGanZhi())
 		}
+		// dates obtained FROM the held one (zero step, round trip, there and back) are dates of their own: flipping the
+		// convention switch of their eight-character chart is not seen by the held date
+		for _, o := range []*calendar.Lunar{l.Next(0), l.GetSolar().GetLunar(), bk, l.Next(0).Next(0)} {
+			o.GetEightChar().SetSect(1)
+		}
+		if l.GetEightChar().GetSect() != 2 {
+			return fmt.Errorf("%v: the held lunar date's chart reports convention %d after SetSect(1) on the charts of dates derived from it (Next(0), GetSolar().GetLunar(), Next(n).Next(-n))", t, l.GetEightChar().GetSect())
+		}
 		if df := dig.Diff(dig.Of(l, 0), d1Flat(d1), 4); df != "" {
 			return fmt.Errorf("%v: the held lunar date answers differently after stepping calls: %s", t, df)
 		}
